@@ -24,6 +24,7 @@
 #include <unistd.h>
 #include <stdbool.h>
 #include <fcntl.h>
+#include <sys/stat.h>
 #include <stdio_ext.h>
 
 #include "vsched.h"
@@ -42,9 +43,9 @@ extern size_t in_granul, out_granul;
 size_t encoder_alloc_size(unsigned long mbs);
 
 enum { OP_NONE, OP_START, OP_LOCK, OP_JOIN, OP_READ, OP_WRITE, OP_KILL,
-       OP_SUSPEND, OP_EXIT, OP_CREATED, OP_FLOCK };
+       OP_SUSPEND, OP_EXIT, OP_CREATED, OP_FLOCK, OP_FILE };
 static const char *const opname[] = { "run", "start", "lock", "join", "read",
-  "write", "kill", "sigsuspend", "exit", "created", "flockfile" };
+  "write", "kill", "sigsuspend", "exit", "created", "flockfile", "fileop" };
 
 struct vmx { void *addr; int owner; };
 #define MAXMX 32
@@ -868,8 +869,9 @@ env_applies(int fd)
 ssize_t
 vs_read(int fd, void *buf, size_t n)
 {
-  int self = vs_self;
+  int self = vs_self, kill_mode = 0;
   size_t want = n;
+  ssize_t rc;
 
   T[self].op = OP_READ;
   T[self].obj = fd;
@@ -878,6 +880,12 @@ vs_read(int fd, void *buf, size_t n)
 
   if (vs_cfg.rfrag && want > vs_cfg.rfrag)
     want = vs_cfg.rfrag;
+  if ((vs_cfg.fenv & 2) && n > 0) {
+    int c = choose(CP_FENV, 3, self, 1);
+    if (c == 1)
+      finish(OC_SIGNAL, SIGKILL, 255);
+    kill_mode = c == 2;
+  }
   if (vs_cfg.renv && n > 0 && env_applies(fd)) {
     int kinds[4], k = 0, c;
     kinds[k++] = 0;
@@ -890,11 +898,15 @@ vs_read(int fd, void *buf, size_t n)
     case RENV_HALF: want = want / 2; break;
     case RENV_EIO:
       vtrace("   t%d: read(%d) -> EIO\n", self, fd);
+      vs_rec->inv_flags |= 64;  /* an I/O error was injected */
       errno = EIO;
       return -1;
     }
   }
-  return read(fd, buf, want);
+  rc = read(fd, buf, want);
+  if (kill_mode)
+    finish(OC_SIGNAL, SIGKILL, 255);
+  return rc;
 }
 
 static void
@@ -910,8 +922,9 @@ thread_signal(int self, int sig)
 ssize_t
 vs_write(int fd, const void *buf, size_t n)
 {
-  int self = vs_self;
+  int self = vs_self, kill_mode = 0;
   size_t want = n;
+  ssize_t rc;
 
   T[self].op = OP_WRITE;
   T[self].obj = fd;
@@ -920,6 +933,12 @@ vs_write(int fd, const void *buf, size_t n)
 
   if (vs_cfg.wfrag && want > vs_cfg.wfrag)
     want = vs_cfg.wfrag;
+  if ((vs_cfg.fenv & 2) && n > 0) {
+    int c = choose(CP_FENV, 3, self, 1);
+    if (c == 1)
+      finish(OC_SIGNAL, SIGKILL, 255);
+    kill_mode = c == 2;
+  }
   if (vs_cfg.wenv && n > 0 && env_applies(fd)) {
     int kinds[8], k = 0, c;
     kinds[k++] = 0;
@@ -933,21 +952,26 @@ vs_write(int fd, const void *buf, size_t n)
     switch (kinds[c]) {
     case WENV_SHORT1: want = 1; break;
     case WENV_HALF: want = want / 2; break;
-    case WENV_EIO: vtrace("   t%d: write(%d) -> EIO\n", self, fd); errno = EIO; return -1;
-    case WENV_ENOSPC: vtrace("   t%d: write(%d) -> ENOSPC\n", self, fd); errno = ENOSPC; return -1;
+    case WENV_EIO: vtrace("   t%d: write(%d) -> EIO\n", self, fd); vs_rec->inv_flags |= 64; errno = EIO; return -1;
+    case WENV_ENOSPC: vtrace("   t%d: write(%d) -> ENOSPC\n", self, fd); vs_rec->inv_flags |= 64; errno = ENOSPC; return -1;
     case WENV_EPIPE:
+      vs_rec->inv_flags |= 64;
       vtrace("   t%d: write(%d) -> EPIPE\n", self, fd);
       thread_signal(self, SIGPIPE);
       errno = EPIPE;
       return -1;
     case WENV_EFBIG:
+      vs_rec->inv_flags |= 64;
       vtrace("   t%d: write(%d) -> EFBIG\n", self, fd);
       thread_signal(self, SIGXFSZ);
       errno = EFBIG;
       return -1;
     }
   }
-  return write(fd, buf, want);
+  rc = write(fd, buf, want);
+  if (kill_mode)
+    finish(OC_SIGNAL, SIGKILL, 255);
+  return rc;
 }
 
 int
@@ -1048,10 +1072,67 @@ vs_free(void *p)
 static int FDS[MAXFD];
 static int nfds;
 
+/* File operations of the main thread (C16): each one is a scheduling point (so
+   that an external signal can arrive just before it) and, when asked for, an
+   environment choice: the call fails with one of the errnos meaningful for
+   it, or the process is killed (SIGKILL) just before / just after it. */
+enum { FK_OPEN_IN, FK_OPEN_OUT, FK_CLOSE, FK_UNLINK, FK_FCHOWN, FK_FCHMOD, FK_FUTIMENS, FK_LSTAT, FK_READ, FK_WRITE };
+static const int fk_errnos[][4] = {
+  /* OPEN_IN  */ { EACCES, 0 },
+  /* OPEN_OUT */ { EEXIST, EACCES, ENOSPC, 0 },
+  /* CLOSE    */ { EIO, 0 },
+  /* UNLINK   */ { EPERM, 0 },
+  /* FCHOWN   */ { EPERM, 0 },
+  /* FCHMOD   */ { EPERM, 0 },
+  /* FUTIMENS */ { EPERM, 0 },
+  /* LSTAT    */ { EACCES, 0 },
+  /* READ     */ { 0 },
+  /* WRITE    */ { 0 },
+};
+#define FA_KILL_BEFORE (-1)
+#define FA_KILL_AFTER (-2)
+
+/* returns 0 (do it), an errno (fail with it), FA_KILL_AFTER (do it, then die);
+   FA_KILL_BEFORE never returns */
+static int
+fileop(int kind, int obj)
+{
+  int self = vs_self, acts[8], n = 0, i, c;
+  T[self].op = OP_FILE;
+  T[self].obj = kind * 100 + obj;
+  sched_point(self);
+  T[self].op = OP_NONE;
+  if (!vs_cfg.fenv)
+    return 0;
+  acts[n++] = 0;
+  if (vs_cfg.fenv & 1)
+    for (i = 0; fk_errnos[kind][i]; i++)
+      acts[n++] = fk_errnos[kind][i];
+  if (vs_cfg.fenv & 2) {
+    acts[n++] = FA_KILL_BEFORE;
+    acts[n++] = FA_KILL_AFTER;
+  }
+  c = choose(CP_FENV, n, self, 1);
+  if (acts[c] == FA_KILL_BEFORE) {
+    vtrace("   t%d: SIGKILL before file operation %d\n", self, kind);
+    finish(OC_SIGNAL, SIGKILL, 255);
+  }
+  if (acts[c])
+    vtrace("   t%d: file operation %d -> action %d\n", self, kind, acts[c]);
+  return acts[c];
+}
+
+static void
+kill_after(int a)
+{
+  if (a == FA_KILL_AFTER)
+    finish(OC_SIGNAL, SIGKILL, 255);
+}
+
 int
 vs_open(const char *path, int flags, ...)
 {
-  int fd;
+  int fd, a;
   mode_t mode = 0;
   if (flags & O_CREAT) {
     va_list ap;
@@ -1059,24 +1140,99 @@ vs_open(const char *path, int flags, ...)
     mode = va_arg(ap, int);
     va_end(ap);
   }
+  a = fileop((flags & O_CREAT) ? FK_OPEN_OUT : FK_OPEN_IN, 0);
+  if (a > 0) {
+    errno = a;
+    return -1;
+  }
   fd = open(path, flags, mode);
   if (fd >= 0 && nfds < MAXFD)
     FDS[nfds++] = fd;
+  kill_after(a);
   return fd;
 }
 
 int
 vs_close(int fd)
 {
-  int i;
-  if (vs_inproc && fd >= 0 && fd <= 2)
+  int i, a, rc;
+  a = fileop(FK_CLOSE, fd);
+  if (a > 0) {
+    /* the descriptor is gone even when close() reports an error */
+    if (!(vs_inproc && fd >= 0 && fd <= 2)) {
+      for (i = 0; i < nfds; i++)
+        if (FDS[i] == fd) { FDS[i] = FDS[--nfds]; break; }
+      close(fd);
+    }
+    errno = a;
+    return -1;
+  }
+  if (vs_inproc && fd >= 0 && fd <= 2) {
+    kill_after(a);
     return 0;                   /* the executor keeps its standard descriptors */
+  }
   for (i = 0; i < nfds; i++)
     if (FDS[i] == fd) {
       FDS[i] = FDS[--nfds];
       break;
     }
-  return close(fd);
+  rc = close(fd);
+  kill_after(a);
+  return rc;
+}
+
+int
+vs_unlink(const char *path)
+{
+  int a = fileop(FK_UNLINK, 0), rc;
+  if (a > 0) {
+    vs_rec->inv_flags |= 32;    /* tells the oracle that a removal was made to fail */
+    errno = a;
+    return -1;
+  }
+  rc = unlink(path);
+  kill_after(a);
+  return rc;
+}
+
+int
+vs_fchown(int fd, uid_t u, gid_t g)
+{
+  int a = fileop(FK_FCHOWN, fd), rc;
+  if (a > 0) { errno = a; return -1; }
+  rc = fchown(fd, u, g);
+  kill_after(a);
+  return rc;
+}
+
+int
+vs_fchmod(int fd, mode_t m)
+{
+  int a = fileop(FK_FCHMOD, fd), rc;
+  if (a > 0) { errno = a; return -1; }
+  rc = fchmod(fd, m);
+  kill_after(a);
+  return rc;
+}
+
+int
+vs_futimens(int fd, const struct timespec ts[2])
+{
+  int a = fileop(FK_FUTIMENS, fd), rc;
+  if (a > 0) { errno = a; return -1; }
+  rc = futimens(fd, ts);
+  kill_after(a);
+  return rc;
+}
+
+int
+vs_lstat(const char *path, struct stat *sb)
+{
+  int a = fileop(FK_LSTAT, 0), rc;
+  if (a > 0) { errno = a; return -1; }
+  rc = lstat(path, sb);
+  kill_after(a);
+  return rc;
 }
 
 /* ---- hook H2: scheduler events ------------------------------------------- */
